@@ -309,4 +309,100 @@ theorem metadataA_arel (env : Env) {k' k v' v : Text} (hk : TextSim env.cs.uws k
       intro _ _ _
       exact hrest
 
+/-! ### blocks and the event step -/
+
+theorem endBlockContent_arel (kind : BlockKind) :
+    ARel (α := α) uws Eq (endBlockContent kind) (endBlockContent kind) := by
+  unfold endBlockContent
+  apply ARel.bind ARel.get
+  intro s' s hs
+  simp only [hs.block, hs.stepCounter, hs.defineMode]
+  cases s.block with
+  | none => dsimp only; arel
+  | some buf => cases buf <;> dsimp only <;> arel
+
+theorem pushContent_arel (c : Content) : ARel (α := α) uws (fun _ _ => True) (pushContent c) (pushContent c) := by
+  unfold pushContent
+  apply ARel.bind ARel.get
+  intro s' s hs
+  simp only [hs.defineMode]
+  apply ARel.ite
+  · apply ARel.modify
+    intro c' c hc
+    colsim hc
+  · exact ARel.pure trivial
+
+theorem endBlock_arel (kind : BlockKind) : ARel (α := α) uws (fun _ _ => True) (endBlock kind) (endBlock kind) := by
+  unfold endBlock
+  apply ARel.bind (endBlockContent_arel kind)
+  intro r' r hr
+  subst hr
+  have hm : ARel (α := α) uws (fun _ _ => True) (modify fun s => { s with block := none })
+      (modify fun s => { s with block := none }) := by
+    apply ARel.modify
+    intro c' c hc
+    colsim hc
+  cases r' with
+  | none => exact hm
+  | some c =>
+    dsimp only
+    apply ARel.bind (pushContent_arel c)
+    intro _ _ _
+    exact hm
+
+/-- a component event meets an open text buffer (text define mode): the one place where the
+    analysis copies a piece of the source text instead of reading the event -/
+def TextModeSliceAt (ev : Ev α) (c : Col α) : Prop := ev.isComp = true ∧ ∃ buf, c.block = some (.text buf)
+
+/-- **one event**: `EvSim`-related events take `ColSim`-related states to `ColSim`-related states,
+    for any two source texts, unless the event is a component inside a text-mode block -/
+theorem processEvent_sim (env : Env) (input' input : Str) {ev' ev : Ev α} (h : EvSim env.cs.uws ev' ev)
+    {c' c : Col α} (hc : ColSim env.cs.uws c' c) (hns : ¬ TextModeSliceAt ev c) :
+    ColSim env.cs.uws (processEvent env input' ev' c').2 (processEvent env input ev c).2 := by
+  have hnt : ev.isComp = true → ∀ buf, c.block ≠ some (.text buf) := fun h1 buf h2 => hns ⟨h1, buf, h2⟩
+  cases ev' <;> cases ev <;> try (exfalso; simp [EvSim] at h; done)
+  case frontMatter.frontMatter t' t =>
+    simp only [processEvent, A_modify]
+    colsim hc
+    show FmSim env.cs.uws t' t
+    unfold FmSim
+    simpa [EvSim] using h
+  case metadata.metadata k' v' k v =>
+    simp only [processEvent]
+    have h2 : TextSim env.cs.uws k' k ∧ TextSim env.cs.uws v' v := by simpa [EvSim] using h
+    exact ((metadataA_arel env h2.1 h2.2).out c' c hc).2
+  case «section».«section» n' n =>
+    have h2 : OptRel (TextSim env.cs.uws) n' n := by simpa [EvSim] using h
+    have h3 := optTrimmed_eq h2
+    simp only [processEvent, A_modify, h3]
+    colsim hc
+  case start.start k' k =>
+    simp only [processEvent, A_modify]
+    have h2 : k' = k := by simpa [EvSim] using h
+    subst h2
+    colsim hc
+  case stop.stop k' k =>
+    simp only [processEvent]
+    have h2 : k' = k := by simpa [EvSim] using h
+    subst h2
+    exact ((endBlock_arel k').out c' c hc).2
+  case text.text t' t =>
+    simp only [processEvent]
+    exact ((inStepText_arel env (by simpa [EvSim] using h)).out c' c hc).2
+  case ingredient.ingredient i' i =>
+    simp only [processEvent]
+    exact inBlockComponent_sim env input' input h hc (hnt rfl)
+  case cookware.cookware i' i =>
+    simp only [processEvent]
+    exact inBlockComponent_sim env input' input h hc (hnt rfl)
+  case timer.timer i' i =>
+    simp only [processEvent]
+    exact inBlockComponent_sim env input' input h hc (hnt rfl)
+  case error.error d' d =>
+    simp only [processEvent]
+    exact hc
+  case warning.warning d' d =>
+    simp only [processEvent, A_modify]
+    exact hc.pushDiag (by simpa [EvSim] using h)
+
 end Cook
